@@ -107,7 +107,8 @@ def observer_part(pid, tier, out_dir):
     def report(kind, path, fn, opts, diffs):
         for k in known:
             ob = k.get("observer")
-            if ob and os.path.basename(path) == ob["fixture"] and all(any(d.startswith(p) or p in d for p in ob["paths"]) for d in diffs):
+            # fixture "*": any fixture / synthetic document -- but ONLY differences on the listed paths are attributed
+            if ob and ob["fixture"] in ("*", os.path.basename(path)) and all(any(d.startswith(p) or p in d for p in ob["paths"]) for d in diffs):
                 knowns.append((k, f"observer:{os.path.basename(path)}:{fn}"))
                 return
         name = f"{pid}.observer.{fn}.{os.path.basename(path)}"
